@@ -386,7 +386,8 @@ func runScenario(ctx *xplor.Ctx, net nk.Net, sc scen, only *replay) {
 		db.VerifDrop(filepath.Join(nk.BaseDir(), g.name))
 	}()
 	ctx.Count("journal_units", int64(len(g.journal)))
-	deep := ctx.Tier == "thorough"
+	// a second crash inside the recovery run: in both tiers (quick has fewer scenarios, not fewer crash points)
+	deep := true
 	for _, cp := range points(g.journal) {
 		if only != nil && only.Crash != cp {
 			continue
@@ -471,7 +472,7 @@ func main() {
 	xplor.Main(xplor.Check{
 		ID:    "C06",
 		Level: "fault_enumeration",
-		Rule:  "scenario = block tree (<= 4 / 5 blocks, <= 2 leaves, blocks carry shared and conflicting txs) x delivery order (index order, reverse order, one rotation; thorough: every permutation for <= 4 blocks); the uncrashed run is journalled (every Set/Delete, Tx.Commit, Bulk.Flush on the chain store and the state store, in issue order); crash point = every journal prefix + every proper prefix of the op list of each bulk (torn bulk); thorough: additionally every crash point of the recovery run itself. distinct_nontrivial = distinct (scenario, crash point) whose restart passed all oracles",
+		Rule:  "scenario = block tree (<= 4 / 5 blocks, <= 2 leaves, blocks carry shared and conflicting txs) x delivery order (index order, reverse order, one rotation; thorough: every permutation for <= 4 blocks); the uncrashed run is journalled (every Set/Delete, Tx.Commit, Bulk.Flush on the chain store and the state store, in issue order); crash point = every journal prefix + every proper prefix of the op list of each bulk (torn bulk); additionally, for every crash point whose recovery writes anything, every crash point of the recovery run itself (second crash). distinct_nontrivial = distinct (scenario, crash point) whose restart passed all oracles",
 		Assumptions: []string{
 			"a committed DB transaction is atomic and a bulk is flushed in issue order (badger/leveldb are the trusted base); writes of the single chain goroutine reach the two stores in issue order",
 			"the op order inside a state-store bulk follows a Go map walk and differs between runs: the replay record stores the crash point by position, so a replay explores the same position of a freshly recorded journal",
